@@ -448,9 +448,9 @@ public:
 	*/
 	Array& append(const Array& b)
 	{
-		int n=length();
-		resize(length()+b.length());
-		for (int i=0; i<b.length(); i++)
+		int n=length(), m=b.length(); // b may be this same array: its length changes in resize()
+		resize(n+m);
+		for (int i=0; i<m; i++)
 			_a[n+i] = b[i];
 		return *this;
 	}
@@ -666,6 +666,9 @@ Array<T>& Array<T>::insert(int k, const T& x)
 	int s = h->s;
 	if (k == -1)
 		k = n;
+	const T* px = &x;
+	size_t xoff = size_t((const char*)px) - size_t((const char*)_a);
+	bool inside = xoff < size_t(n) * sizeof(T); // x is an element of this array: it moves with the block
 	if (n < s) {}
 	else
 	{
@@ -680,10 +683,14 @@ Array<T>& Array<T>::insert(int k, const T& x)
 		h = &d();
 		h->s=s1;
 	}
+	if (inside)
+		px = (const T*)((const char*)_a + xoff);
 	if (k < n) {
 		memmove((char*)_a + (k + 1) * sizeof(T), (void*)(_a + k), (n - k) * sizeof(T));
+		if (inside && xoff >= size_t(k) * sizeof(T))
+			px++;
 	}
-	asl_construct_copy(_a + k, x);
+	asl_construct_copy(_a + k, *px);
 	h->n = n+1;
 	return *this;
 }
